@@ -75,7 +75,7 @@ def c04(tier):
     quick = tier == "quick"
     rng = random.Random(seed())
     cases = grams.curated_conflict() + grams.curated("lang")
-    cases += grams.shift_family(3 if quick else 4)
+    cases += grams.shift_family(3 if quick else 4) + grams.mixed_conflict_family()
     cases += grams.self_nesting() + grams.rename_variants(grams.curated("lang") + grams.self_nesting() + grams.curated_conflict())
     cases += grams.chain_family() + grams.order_variants(grams.curated_conflict() + grams.curated("lang"), rng, reverse=True, shuffles=0 if quick else 2)
     cases += grams.random_grammars(seed() + 4, 80 if quick else 500, prefix="rnd4", sugar=0.15, maxalts=3)
@@ -207,7 +207,7 @@ def op_tables(quick, rng):
     return tabs
 
 
-def climb_case(cid, tab, level_order, fn, prefix=0):
+def climb_case(cid, tab, level_order, fn, prefix=0, decoy=0):
     """tab = [(assoc, nops)] per level (index 0 = weakest); level numbers are
     taken from level_order so that declaration order and level order differ."""
     names = "PQRSTUVW"
@@ -231,10 +231,23 @@ def climb_case(cid, tab, level_order, fn, prefix=0):
     alts += ["LP e RP", "NUM"]
     if fn:
         alts.append("FN LP e RP")
-    g = grams.gram(cid, "e = " + " | ".join(alts), bounds=False)
+    text = "e = " + " | ".join(alts)
+    if decoy:
+        # a second qualified rule over the *same operator tokens* with the level order and the associativity turned round
+        # (levels are local to a rule: `type` expressions and value expressions sharing `*` and `&`); the chains below stay
+        # in rule e and must group by e's own table, wherever the other rule is declared
+        top = max(l for _, l, _ in ops) + 1
+        dalts = ["t %s t @%s(%d)" % (nm, "left" if assoc else "right", top - lvl) for nm, lvl, assoc in reversed(ops)] + ["TM"]
+        dtext = "t = " + " | ".join(dalts)
+        text = "@start s = e | DEC t\n" + (dtext + "\n" + text if decoy == 1 else text + "\n" + dtext)
+    g = grams.gram(cid, text, bounds=False)
     tn = {t: i + 2 for i, t in enumerate(g["terms"])}
     g["climb"] = {"ops": [{"t": tn[nm], "lvl": lvl, "assoc": assoc} for nm, lvl, assoc in ops],
-                  "lp": tn["LP"], "rp": tn["RP"], "atom": tn["NUM"], "fn": tn.get("FN", -1)}
+                  "lp": tn["LP"], "rp": tn["RP"], "atom": tn["NUM"], "fn": tn.get("FN", -1), "off": 0}
+    if decoy:
+        # the other rule is judged as well, by its own table: chains `DEC TM op TM ...`
+        g["climb2"] = {"ops": [{"t": tn[nm], "lvl": top - lvl, "assoc": 1 - assoc} for nm, lvl, assoc in ops],
+                       "lp": -1, "rp": -2, "atom": tn["TM"], "fn": -1, "off": 1, "dec": tn["DEC"]}
     return g
 
 
@@ -250,6 +263,9 @@ def c05(tier):
         lv = sorted(rng.sample([1, 2, 3, 7, 9, 10, 11, 12, 19, 20, 21, 99, 100, 101, 1000, 65536], nl))
         cases.append(climb_case("ops-%d-%s" % (i, "".join("%s%d" % ("R" if a else "L", n) for a, n in tab)),
                                 tab, lv, fn=(i % 3 == 0)))
+        if len(tab) >= 2 and (i % 2 == 1 or not quick):
+            cases.append(climb_case("ops-%d-%s-decoy%d" % (i, "".join("%s%d" % ("R" if a else "L", n) for a, n in tab), 1 + (i // 2) % 2),
+                                    tab, lv, fn=False, decoy=1 + (i // 2) % 2))
         if i % 2 == 0 or not quick:
             cases.append(climb_case("ops-%d-%s-pfx%d" % (i, "".join("%s%d" % ("R" if a else "L", n) for a, n in tab), 1 + i % 2),
                                     tab, lv, fn=False, prefix=1 + (i // 2) % 2))
@@ -290,12 +306,34 @@ def c05(tier):
             pre = [cl["lp"]] if (cl["fn"] < 0 or rng.random() < 0.6) else [cl["fn"], cl["lp"]]
             toks = toks[:a] + [pre] + toks[a:b + 1] + [[cl["rp"]]] + toks[b + 1:]
             ws.append([t for grp in toks for t in grp])
+        if "climb2" in c:
+            c2 = c["climb2"]
+            opts2 = [o["t"] for o in c2["ops"]]
+            for n in range(0, maxops + 1):
+                if len(opts2) ** n > 700:
+                    continue
+                for combo in itertools.product(opts2, repeat=n):
+                    w = [c2["dec"], c2["atom"]]
+                    for o in combo:
+                        w += [o, c2["atom"]]
+                    ws.append(w)
         jobs.append({"case": c["gen"]["pkg"], "alphabet": [], "maxlen": -1, "fulllen": 0, "extra": ws, "budget": 60})
     recs, hangs = run_jobs(sc, runner, jobs)
     idx = {c["gen"]["pkg"]: i for i, c in enumerate(acc)}
     sd = spec_dir(sc, "spec-climb")
-    json.dump([c["climb"] for c in acc], open(os.path.join(sd, "climb_cases.json"), "w"))
-    truns = [{"c": idx[x["case"]] + 1, "w": x["w"], "ok": x["ok"] and not x["errs"],
+    cfgs, cfgcase = [], []
+    for i, c in enumerate(acc):
+        c["cfg1"] = len(cfgs); cfgs.append(c["climb"]); cfgcase.append(i)
+        if "climb2" in c:
+            c["cfg2"] = len(cfgs); cfgs.append(c["climb2"]); cfgcase.append(i)
+    json.dump(cfgs, open(os.path.join(sd, "climb_cases.json"), "w"))
+
+    def cfg_of(x):
+        c = acc[idx[x["case"]]]
+        if "climb2" in c and x["w"] and x["w"][0] == c["climb2"]["dec"]:
+            return c["cfg2"]
+        return c["cfg1"]
+    truns = [{"c": cfg_of(x) + 1, "w": x["w"], "ok": x["ok"] and not x["errs"],
               "events": [norm_event(e) for e in x["events"] if e["e"] == "act"]} for x in recs]
     # TLC reads the runs as one JSON value: feed them in chunks
     climb_bad = []
@@ -314,8 +352,7 @@ def c05(tier):
                 climb_bad.append(l)
         r.states += rk.states; r.distinct += rk.distinct
     for b in climb_bad:
-        run, c = truns[b["r"]], acc[b["c"]]
-        cl = c["climb"]
+        run, c = truns[b["r"]], acc[cfgcase[b["c"]]]
         has_right_chain = False
         if b["isallleft"]:
             sig = "c05.right-assoc-equal-level"
